@@ -133,6 +133,7 @@ fn cmd_run(args: &[String]) {
     let mut idx = a.shard;
     let budget_s: Option<u64> = a.extra.get("budget_s").and_then(|s| s.parse().ok());
     let mut truncated = false;
+    let mut partials_written = 0;
     while idx < total {
         if let Some(b) = budget_s {
             if t0.elapsed().as_secs() >= b {
@@ -144,6 +145,16 @@ fn cmd_run(args: &[String]) {
         p.ep_seed = mix(mix(a.seed, rng::fnv_str(&a.scenario)), idx);
         p.extra.insert("index".into(), idx.to_string());
         let r = run_episode(&sc, &p, &mut shard);
+        // What has been found is put on disk at once (the first few times): a shard that dies in a
+        // later episode - killed by a watchdog, or crashed - must not take its findings with it.
+        if r.2 > 0 && partials_written < 4 {
+            if let Some(f) = &a.out {
+                let mut j = shard.to_json();
+                j["partial"] = json!(true);
+                let _ = std::fs::write(format!("{}.partial", f), serde_json::to_string(&j).unwrap_or_default());
+                partials_written += 1;
+            }
+        }
         if a.verbose {
             eprintln!("episode {} key={} nontrivial={} violations={}", idx, r.0, r.1, r.2);
         }
